@@ -279,7 +279,7 @@ func quoteMetaBytes(s string) string {
 }
 
 func c19Gen(t *rapid.T) C19Case {
-	s := datagen.GenSchema(t, []string{"plain", "plain", "json", "logfmt", "delim"})
+	s := datagen.GenSchema(t, []string{"plain", "plain", "json", "logfmt", "delim", "packed"})
 	var c C19Case
 	c.Recs = datagen.GenRecs(t, s, 20, true) // unique timestamps identify records
 	// Arbitrary bytes in some lines and label values.
